@@ -184,6 +184,9 @@ def main(argv=None):
         histories.append((f"random-{profile}-{i}", ck.rng.random() > 0.08, gen.random_history(ck.rng, profile)))
     pending, wire = run_sqlite_histories(ck, sq, Event, histories, 0, "sqlite:")
     if have_driver:
+        # state-level stream (Model/CrashStore.v, Props/C06State.v): full table dumps at every crash point
+        from . import c06_state
+        c06_state.run(ck, sq, Event, [(r.name, r.lazy, r.steps) for r, _, _ in pending], replay_obj, quick)
         compare_with_model(ck, "C06", pending, wire, "sqlite:")
         run_peewee(ck, 6 if quick else 150, ck.seed)
     if not quick:
